@@ -63,7 +63,7 @@ def plan(tier, seed):
         for first in (0, 1):
             for c in range(NCHUNK):
                 tasks.append(("pairs/line/bound1", ("b1", p, first, c, NCHUNK, "line")))
-    b2 = PAIRS if thorough else SHORT[:1]
+    b2 = SHORT + PAIRS[:3] + PAIRS[-3:] if thorough else SHORT[:1]      # bound 2 on all 15 pairs takes ~50 min
     scopes.append({"name": "pairs/line/bound2", "pairs": b2, "granularity": "LINE", "preemptions": "<= 2"})
     nc2 = 32 if thorough else 8
     for p in b2:
